@@ -2,6 +2,7 @@ package props
 
 import (
 	"fmt"
+	"sort"
 	"strings"
 
 	"golang.org/x/tools/go/ssa"
@@ -11,12 +12,15 @@ import (
 
 func init() {
 	register(&Prop{
-		ID:    "C08",
-		Title: "Include-filtered List/Pull behave as the filtered collection",
+		ID:          "C08",
+		Title:       "Include-filtered List/Pull behave as the filtered collection",
 		Explanation: "R08.1 extracts the complete decision table of CollectionChange.include over the atoms {filter==nil, old∈, new∈} by abstract interpretation with uninterpreted atoms and compares all rows with the table the property states (same change / ADD / REMOVE / not delivered; Id and ChangeTime preserved). R08.2 ReadRequest.Exclude ≡ filter≠nil ∧ ¬filter(id,m), itemSlice skips exactly the excluded items and List and the Pull seed both go through it. R08.3 in Collection.Pull the include decision precedes read-mask filtering and the equivalence test and a negative decision skips the event. R08.4 every predicate literal passed to resource.WithInclude guards its type assertion with a nil test (ADD events evaluate the predicate on an absent old value). Does NOT decide that folding the filtered stream equals the filtered List for all histories.",
 		Assumptions: []string{"the include predicate is a pure function of (id, value)"},
 		Run:         runC08,
 		Controls: []Control{
+			{Name: "revert-F59-predicate-asked-about-absent", File: "pkg/resource/change.go", Old: "\toldInclude := c.OldValue != nil && includeFunc(c.Id, c.OldValue)\n\tnewInclude := c.NewValue != nil && includeFunc(c.Id, c.NewValue)\n", New: "\toldInclude := includeFunc(c.Id, c.OldValue)\n\tnewInclude := includeFunc(c.Id, c.NewValue)\n", Expect: "R08.1"},
+			{Name: "absent-new-value-still-asked", File: "pkg/resource/change.go", Old: "\tnewInclude := c.NewValue != nil && includeFunc(c.Id, c.NewValue)\n", New: "\tnewInclude := includeFunc(c.Id, c.NewValue)\n", Expect: "R08.1"},
+			{Name: "booking-list-skips-unbounded", File: "pkg/trait/bookingpb/model_server.go", Old: "\topts := []resource.ReadOption{\n\t\tresource.WithReadMask(request.ReadMask),\n\t}\n\tif request.BookingIntersects != nil {\n\t\topts = append(opts, resource.WithInclude(func(_ string", New: "\topts := []resource.ReadOption{\n\t\tresource.WithReadMask(request.ReadMask),\n\t}\n\tif request.BookingIntersects != nil && request.BookingIntersects.StartTime != nil {\n\t\topts = append(opts, resource.WithInclude(func(_ string", Expect: "R08.7"},
 			{Name: "swap-add-remove", File: "pkg/resource/change.go", Old: "\tif newInclude {\n\t\t// treat this like an Add", New: "\tif !newInclude {\n\t\t// treat this like an Add", Expect: "R08.1"},
 			{Name: "deliver-excluded", File: "pkg/resource/change.go", Old: "if oldInclude == newInclude {", New: "if oldInclude == newInclude || true {", Expect: "R08.1"},
 			{Name: "itemslice-ignores-exclude", File: "pkg/resource/collection.go", Old: "\t\tif readConfig.Exclude(id, value.body) {\n\t\t\tcontinue\n\t\t}\n", New: "", Expect: "R08.2"},
@@ -110,6 +114,10 @@ func runC08(c *an.Ctx) {
 	c.Min("R08.2", 4)
 	c.Min("R08.3", 3)
 	c.Min("R08.4", 2)
+	r087(c)
+	c.Min("R08.7", 2)
+	r165held(c, "R08.8") // include-driven removals and re-adds under a configured equivalence (shared with R16.5)
+	c.Min("R08.8", 2)
 }
 
 func changeTypeConsts(c *an.Ctx) (add, upd, rem, rep int64, ok bool) {
@@ -138,44 +146,66 @@ func r081(c *an.Ctx) {
 	leaves := an.DecisionTree(fn, an.DTConfig{Names: names})
 	c.Count("table_rows", len(leaves))
 	const O, N = "call f(c.Id, c.OldValue)", "call f(c.Id, c.NewValue)"
-	type row struct {
-		nilF, o, n bool
-		label      string
+	const oNil, nNil = "c.OldValue==nil", "c.NewValue==nil"
+	// membership: a value is part of the filtered collection when it is present and the predicate accepts it. An absent
+	// value (the old value of an ADD, the new value of a REMOVE) is never a member, whatever the predicate answers for a
+	// nil message - the property quantifies over predicates that are true for absent values too.
+	type envT struct {
+		nilF, oAbsent, oAcc, nAbsent, nAcc bool
 	}
-	rows := []row{{true, false, false, "filter==nil"}, {false, true, true, "(old∈,new∈)"}, {false, false, true, "(old∉,new∈)"}, {false, true, false, "(old∈,new∉)"}, {false, false, false, "(old∉,new∉)"}}
-	for _, r := range rows {
-		env := map[string]bool{"f==nil": r.nilF, O: r.o, N: r.n}
-		cons := name + "|row " + r.label
-		var hit []*an.Leaf
-		und := ""
+	var envs []envT
+	envs = append(envs, envT{nilF: true})
+	for _, oa := range []bool{false, true} {
+		for _, oc := range []bool{false, true} {
+			for _, na := range []bool{false, true} {
+				for _, nc := range []bool{false, true} {
+					envs = append(envs, envT{false, oa, oc, na, nc})
+				}
+			}
+		}
+	}
+	label := func(e envT) (string, bool, bool) {
+		if e.nilF {
+			return "filter==nil", false, false
+		}
+		o, n := !e.oAbsent && e.oAcc, !e.nAbsent && e.nAcc
+		switch {
+		case o && n:
+			return "(old∈,new∈)", o, n
+		case !o && n:
+			return "(old∉,new∈)", o, n
+		case o && !n:
+			return "(old∈,new∉)", o, n
+		}
+		return "(old∉,new∉)", o, n
+	}
+	hits := map[string]int{}
+	undec := map[string]string{}
+	for _, e := range envs {
+		env := map[string]bool{"f==nil": e.nilF, O: e.oAcc, N: e.nAcc, oNil: e.oAbsent, nNil: e.nAbsent}
+		lb, ro, rn := label(e)
+		cons := name + "|row " + lb
 		for _, l := range leaves {
 			if l.Undec != "" {
-				und = l.Undec
+				undec[lb] = l.Undec
 				continue
 			}
-			// a nil filter is never called: leaves that call it are not rows of filter==nil
 			ok, unknown := leafConsistent(l, env)
 			if unknown != "" {
 				// atoms about the filter calls are irrelevant when the filter is nil and vice versa
-				if r.nilF {
-					continue
+				if !e.nilF {
+					undec[lb] = "branch on an atom outside {filter==nil, old/new present, old∈, new∈}: " + unknown
 				}
-				und = "branch on an atom outside {filter==nil, old∈, new∈}: " + unknown
 				continue
 			}
-			if ok {
-				hit = append(hit, l)
+			if !ok {
+				continue
 			}
-		}
-		if und != "" && len(hit) == 0 {
-			c.Unk(rule, cons, fn.Pos(), "decision table could not be extracted: "+und)
-			continue
-		}
-		if len(hit) == 0 {
-			c.Unk(rule, cons, fn.Pos(), "no path of include corresponds to this row")
-			continue
-		}
-		for _, l := range hit {
+			// a nil filter is never called: leaves that call it are not rows of filter==nil
+			if e.nilF && (l.Get(O) != "" || l.Get(N) != "") {
+				continue
+			}
+			hits[lb]++
 			if l.Panics {
 				c.Bad(rule, cons, l.RetPos, "include panics on this row")
 				continue
@@ -193,18 +223,32 @@ func r081(c *an.Ctx) {
 			same := ch.S == "c" || (symField(ch, "ChangeType") == "c.ChangeType" && symField(ch, "NewValue") == "c.NewValue" && symField(ch, "OldValue") == "c.OldValue" && symField(ch, "Id") == "c.Id")
 			idTime := ch.S == "c" || (symField(ch, "Id") == "c.Id" && symField(ch, "ChangeTime") == "c.ChangeTime")
 			got := fmt.Sprintf("returns (%s, %v)", ch.S, deliver)
+			if !e.nilF {
+				got += fmt.Sprintf(" for old value absent=%v accepted=%v, new value absent=%v accepted=%v", e.oAbsent, e.oAcc, e.nAbsent, e.nAcc)
+			}
 			switch {
-			case r.nilF || (r.o && r.n):
+			case e.nilF || (ro && rn):
 				c.Check(deliver && same, rule, cons, l.RetPos, got, got+"; expected the unchanged change to be delivered")
-			case !r.o && r.n:
-				good := deliver && idTime && symField(ch, "ChangeType") == fmt.Sprint(add) && symField(ch, "NewValue") == "c.NewValue" && isUnset(symField(ch, "OldValue"))
+			case !ro && rn:
+				// an ADD whose old value is absent may be passed on as it is
+				good := deliver && ((e.oAbsent && same) || (idTime && symField(ch, "ChangeType") == fmt.Sprint(add) && symField(ch, "NewValue") == "c.NewValue" && isUnset(symField(ch, "OldValue"))))
 				c.Check(good, rule, cons, l.RetPos, got, got+"; expected an ADD carrying c.NewValue, no old value, same Id and ChangeTime, delivered")
-			case r.o && !r.n:
-				good := deliver && idTime && symField(ch, "ChangeType") == fmt.Sprint(rem) && symField(ch, "OldValue") == "c.OldValue" && isUnset(symField(ch, "NewValue"))
+			case ro && !rn:
+				good := deliver && ((e.nAbsent && same) || (idTime && symField(ch, "ChangeType") == fmt.Sprint(rem) && symField(ch, "OldValue") == "c.OldValue" && isUnset(symField(ch, "NewValue"))))
 				c.Check(good, rule, cons, l.RetPos, got, got+"; expected a REMOVE carrying c.OldValue, no new value, same Id and ChangeTime, delivered")
 			default:
-				c.Check(!deliver, rule, cons, l.RetPos, got, got+"; a change to an item that matches neither before nor after must not be delivered")
+				c.Check(!deliver, rule, cons, l.RetPos, got, got+"; a change to an item that matches neither before nor after must not be delivered - an absent value (the old value of an ADD, the new value of a REMOVE) never matches, whatever the predicate answers for nil")
 			}
+		}
+	}
+	for _, lb := range []string{"filter==nil", "(old∈,new∈)", "(old∉,new∈)", "(old∈,new∉)", "(old∉,new∉)"} {
+		if hits[lb] > 0 {
+			continue
+		}
+		if u := undec[lb]; u != "" {
+			c.Unk(rule, name+"|row "+lb, fn.Pos(), "decision table could not be extracted: "+u)
+		} else {
+			c.Unk(rule, name+"|row "+lb, fn.Pos(), "no path of include corresponds to this row")
 		}
 	}
 }
@@ -288,7 +332,27 @@ func r082(c *an.Ctx) {
 		an.Instrs(fn, func(in ssa.Instruction) {
 			if fa, ok := in.(*ssa.FieldAddr); ok {
 				if _, _, f, _ := an.FieldOf(fa); f == "byId" {
-					direct = true
+					// handing the map to itemSlice (a function taking the map instead of a method) is not a read of its own
+					for _, u := range an.Referrers(fa) {
+						ld, isLoad := u.(*ssa.UnOp)
+						if !isLoad {
+							if _, isDbg := u.(*ssa.DebugRef); !isDbg {
+								direct = true
+							}
+							continue
+						}
+						for _, u2 := range an.Referrers(ld) {
+							isArg := false
+							for _, cl := range calls {
+								if u2 == cl.(ssa.Instruction) {
+									isArg = true
+								}
+							}
+							if _, isDbg := u2.(*ssa.DebugRef); !isArg && !isDbg {
+								direct = true
+							}
+						}
+					}
 				}
 			}
 		})
@@ -416,6 +480,135 @@ func r084(c *an.Ctx) {
 	if n == 0 {
 		c.Note("no predicate literal passed to resource.WithInclude in the module")
 	}
+}
+
+// r087: the handlers of one server that narrow a collection with an include predicate (ListX and PullX) install the
+// predicate under the same condition: what guards the WithInclude call - a nil test of a request field, the verdict of
+// a helper - is the same for every such call in the package. A listing that skips the predicate in a case where the
+// subscription applies it (or the other way round) no longer equals the fold of the stream.
+func r087(c *an.Ctx) {
+	const rule = "R08.7"
+	wq := an.ModulePath + "/pkg/resource.WithInclude"
+	type site struct {
+		fn   *ssa.Function
+		call ssa.CallInstruction
+		sig  string
+	}
+	byPkg := map[string][]site{}
+	describe := func(v ssa.Value) string {
+		var d func(v ssa.Value, depth int) string
+		d = func(v ssa.Value, depth int) string {
+			if depth > 4 {
+				return "?"
+			}
+			vals := an.ValuesAt(v)
+			if len(vals) == 1 && vals[0] != v {
+				return d(vals[0], depth+1)
+			}
+			if _, _, f, ok := an.FieldOf(v); ok {
+				return "field " + f
+			}
+			switch x := v.(type) {
+			case *ssa.Call:
+				n := an.ModRel(an.CalleeName(x))
+				// generated getter: the field it reads
+				if cal := x.Call.StaticCallee(); cal != nil && cal.Signature.Recv() != nil && strings.HasPrefix(cal.Name(), "Get") && c.Prog.IsGenerated(cal.Pos()) {
+					return "field " + strings.TrimPrefix(cal.Name(), "Get")
+				}
+				var args []string
+				for _, a := range x.Call.Args {
+					args = append(args, d(a, depth+1))
+				}
+				return n + "(" + strings.Join(args, ", ") + ")"
+			case *ssa.Const:
+				return x.String()
+			case *ssa.Parameter:
+				return "param"
+			case *ssa.UnOp:
+				return x.Op.String() + d(x.X, depth+1)
+			case *ssa.BinOp:
+				return "(" + d(x.X, depth+1) + " " + x.Op.String() + " " + d(x.Y, depth+1) + ")"
+			}
+			return fmt.Sprintf("%T", v)
+		}
+		return d(v, 0)
+	}
+	for fn := range c.Prog.AllFuncs {
+		if c.Prog.IsGenerated(fn.Pos()) || fn.Package() == nil {
+			continue
+		}
+		for _, call := range an.CallsTo(fn, wq) {
+			var parts []string
+			for _, e := range an.GuardingEdges(call) {
+				if x, trueMeansNil, ok := an.NilTest(e.If.Cond); ok {
+					parts = append(parts, fmt.Sprintf("%s is nil: %v", describe(x), e.Branch == trueMeansNil))
+					continue
+				}
+				parts = append(parts, fmt.Sprintf("%s: %v", describe(e.If.Cond), e.Branch))
+			}
+			sort.Strings(parts)
+			// what the predicate consults: the exported functions it (or an unexported helper of the package) calls
+			var consults []string
+			if pred := an.ClosureFn(call.Common().Args[0]); pred != nil {
+				seen := map[*ssa.Function]bool{}
+				var visit func(f *ssa.Function, depth int)
+				visit = func(f *ssa.Function, depth int) {
+					if seen[f] || depth > 2 {
+						return
+					}
+					seen[f] = true
+					an.Instrs(f, func(in ssa.Instruction) {
+						cl, ok := in.(ssa.CallInstruction)
+						if !ok {
+							return
+						}
+						cal := cl.Common().StaticCallee()
+						if cal == nil {
+							return
+						}
+						if cal.Package() == fn.Package() && cal.Object() != nil && !cal.Object().Exported() && len(cal.Blocks) > 0 {
+							visit(cal, depth+1)
+							return
+						}
+						if c.Prog.IsGenerated(cal.Pos()) {
+							return // getters
+						}
+						consults = append(consults, an.ModRel(an.CalleeName(cl)))
+					})
+				}
+				visit(pred, 0)
+			}
+			sort.Strings(consults)
+			pk := an.ModRel(fn.Package().Pkg.Path())
+			byPkg[pk] = append(byPkg[pk], site{fn, call, strings.Join(uniqStrings(parts), " && ") + "; predicate consults " + strings.Join(uniqStrings(consults), ", ")})
+		}
+	}
+	var pkgs []string
+	for pk := range byPkg {
+		pkgs = append(pkgs, pk)
+	}
+	sort.Strings(pkgs)
+	for _, pk := range pkgs {
+		sites := byPkg[pk]
+		sort.Slice(sites, func(i, j int) bool { return sites[i].call.Pos() < sites[j].call.Pos() })
+		ref := sites[0]
+		for _, s := range sites {
+			c.SawFunc(an.FuncName(s.fn))
+			cons := an.FuncName(s.fn) + "|include predicate installed under the same condition as in the sibling handlers"
+			c.Check(s.sig == ref.sig, rule, cons, s.call.Pos(), "condition: "+s.sig,
+				fmt.Sprintf("the predicate is installed when {%s}, but %s installs it when {%s}: for a request that satisfies only one of the two, the listing and the subscription select different items and the fold of the stream is no longer the list", s.sig, an.FuncName(ref.fn), ref.sig))
+		}
+	}
+}
+
+func uniqStrings(s []string) []string {
+	var out []string
+	for i, x := range s {
+		if i == 0 || x != s[i-1] {
+			out = append(out, x)
+		}
+	}
+	return out
 }
 
 // r085: what the include decision is fed with. Without backpressure the
